@@ -3,7 +3,7 @@
 record the lead's verification (what tools/seedcheck.sh showed) in meta.json."""
 import json, os, shutil, subprocess, sys
 pid, k, result = sys.argv[1], sys.argv[2], sys.argv[3]
-src = "/tmp/seed-out/%s" % pid
+src = "%s/%s" % (os.environ.get("SEED_OUT", "/tmp/seed-out"), pid)
 dst = os.path.join(os.path.dirname(os.path.dirname(os.path.abspath(__file__))), "seeded", "%s-%s" % (pid, k))
 os.makedirs(dst, exist_ok=True)
 for f in ("patch.diff", "demo.py"):
